@@ -339,6 +339,12 @@ func (c *tclient) exec(i int, op *Op) {
 			c.trees = append(c.trees, &cl)
 		}
 		c.note(i, fmt.Sprintf("clone err=%v", err))
+	case "memstore":
+		// every client may create its own in-memory stores while others do the same
+		p := mast.NewInMemoryStore()
+		err := p.Store(ctx, "n", []byte{byte(op.Val)})
+		b, err2 := p.Load(ctx, "n")
+		c.note(i, fmt.Sprintf("memstore err=%v %v len=%d prefix-nonempty=%v", err, err2, len(b), p.NodeURLPrefix() != ""))
 	case "cur":
 		var sb strings.Builder
 		cur, err := t.Cursor(ctx)
@@ -401,7 +407,7 @@ func GenThreadScenario(seed uint64, tier string) *Scenario {
 	c.BF = []uint{2, 3, 4, 16}[g.Intn(4)]
 	c.Format = []string{FmtBinary, FmtMarshaler}[g.Intn(2)]
 	c.Marshaler = "json"
-	c.KeyD = []string{"int", "string", "uint64", "userkey", "bytes"}[g.Intn(5)]
+	c.KeyD = []string{"int", "string", "uint64", "userkey", "bytes", "string", "lstruct"}[g.Intn(7)]
 	c.ValD = []string{"int", "string", "struct"}[g.Intn(3)]
 	c.U = []int{12, 24, 48, 100}[g.Intn(4)]
 	if c.KeyD == "userkey" {
@@ -415,8 +421,8 @@ func GenThreadScenario(seed uint64, tier string) *Scenario {
 	sc.Extra["setup_mods"] = g.Intn(6)
 	sc.Extra["from_clone"] = g.Intn(4) // 0: clients load roots; 1: each client clones its own loaded tree; 2: mixed; 3: all clients get clones of ONE common parent tree
 	n := g.Range(6, 40)
-	ws := []int{30, 14, 6, 4, 3, 8, 3, 2, 4}
-	kinds := []string{"ins", "del", "get", "iter", "seek", "persist", "clone", "diff", "cur"}
+	ws := []int{30, 14, 6, 4, 3, 8, 3, 2, 4, 2}
+	kinds := []string{"ins", "del", "get", "iter", "seek", "persist", "clone", "diff", "cur", "memstore"}
 	hot := []int{g.Intn(c.U), g.Intn(c.U), g.Intn(c.U)}
 	for i := 0; i < n; i++ {
 		op := Op{K: kinds[g.Pick(ws)], T: g.Intn(sc.Extra["clients"]), Key: g.Intn(c.U), Val: g.Intn(50), A: g.Intn(3), B: g.Intn(3)}
